@@ -41,7 +41,7 @@ func (d *c10Data) refOp(r *clientRef, kind string, call, ret uint64, ok bool) {
 
 func init() {
 	Register(&Scenario{
-		Prop: "C10", Name: "teardown", DeadlockDirected: true,
+		Prop: "C10", Name: "teardown", DeadlockDirected: true, Weight: 3,
 		NonTrivial: []string{"teardown-with-state"},
 		Build: func(w *World) {
 			pr := BuildProto(w, ProtoOpt{Peers: 2 + w.T.Choose(2, "peers"), MinServers: 2, ClientFeats: true,
